@@ -22,6 +22,7 @@ type Contract struct {
 	Line     int
 	Trusted  bool
 	NoInline bool
+	LogCalls bool // calls applied by contract are recorded in the ghost call log
 }
 
 type Clause struct {
@@ -53,7 +54,7 @@ type SpecFile struct {
 	Lines     []string
 }
 
-var clauseRe = regexp.MustCompile(`^(requires|ensures|canary|case|oldlet|let|assigns|trusted|noinline|loop\s+\d+\s+(invariant|vars))\b\s*(.*)$`)
+var clauseRe = regexp.MustCompile(`^(requires|ensures|canary|case|oldlet|let|assigns|trusted|noinline|logcalls|loop\s+\d+\s+(invariant|vars))\b\s*(.*)$`)
 var nameTagRe = regexp.MustCompile(`^([A-Za-z_][A-Za-z0-9_]*)?\s*(\[[A-Za-z0-9, ]*\])?\s*:\s*(.*)$`)
 
 // ParseSpecFile reads the //@ blocks of a contracts file.
@@ -150,6 +151,8 @@ func ParseSpecFile(path string) (*SpecFile, error) {
 					c.Trusted = true
 				case "noinline":
 					c.NoInline = true
+				case "logcalls":
+					c.LogCalls = true
 				case "let", "oldlet":
 					// let: bound in the current (post/loop) state; oldlet: bound in the pre-state
 					c.Clauses = append(c.Clauses, Clause{Kind: kw[0], Expr: rest, Line: lineNos[i]})
@@ -360,6 +363,11 @@ func __allocatedElemsKept[T any](witness []T) bool { return true }
 func __elemsUnchangedExcept[T any](l []T) bool { return true }
 func __elemsUnchangedExcept2[T any](a, b []T) bool { return true }
 func __spawnN() int { return 0 }
+func __decoded[T any](buf []byte) T { var z T; return z }
+func __decodeOK[T any](buf []byte) bool { return true }
+func __callN() int { return 0 }
+func __callIs(i int, fn string) bool { return true }
+func __callRet(i int) bool { return true }
 func __spawnArg(i int) uint64 { return 0 }
 func __spawnIs(i int, fn string) bool { return true }
 `
@@ -508,7 +516,7 @@ func splitTop(s string, sep byte) []string {
 
 var (
 	oldRe    = regexp.MustCompile(`\bold\(`)
-	forallRe = regexp.MustCompile(`\b(forall|forall2|forall3|exists|exists2|ite|visited|sentN|sentAt|recvN|recvAt|closed|held|rheld|fresh|mapEq|sameElems|sameArray|sameSlice|allocatedElemsKept|allocated|arrayAllocated|same|nilSlice|disjoint|elemsUnchangedExcept|elemsUnchangedExcept2|spawnN|spawnArg|spawnIs|logN|logAt\[[A-Za-z0-9_.*\[\]]+\])\(`)
+	forallRe = regexp.MustCompile(`\b(forall|forall2|forall3|exists|exists2|ite|visited|sentN|sentAt|recvN|recvAt|closed|held|rheld|fresh|mapEq|sameElems|sameArray|sameSlice|allocatedElemsKept|allocated|arrayAllocated|same|nilSlice|disjoint|elemsUnchangedExcept|elemsUnchangedExcept2|spawnN|spawnArg|spawnIs|callN|callIs|callRet|decoded\[[A-Za-z0-9_.*\[\]]+\]|decodeOK\[[A-Za-z0-9_.*\[\]]+\]|logN|logAt\[[A-Za-z0-9_.*\[\]]+\])\(`)
 	assertRe = regexp.MustCompile(`\bassert\(`)
 )
 
